@@ -8,6 +8,7 @@ from . import rules_cb as CB
 from . import rules_param as PA
 from . import rules_pchk as K
 from . import rules_own as O
+from . import rules_kernels as KN
 
 PROPS = {}
 MAIN3 = [1, 2, 3]        # RS-2^8, RS-2^m, LDPC-Staircase
@@ -49,6 +50,9 @@ def c01(ctx):
         K.r_flag_truth(ctx, prog)
         K.r_extra_mark(ctx, prog)
         K.r_nullfeed(ctx, prog)
+        D.r_it_step3(ctx, prog)
+        KN.r_kernel_shape(ctx, prog)
+        KN.r_kea(ctx, prog, list(range(0, 2 * KN.P + 9)), [0, 1, 2, 3, 4, 5, 7, 8, 9, 12, 13, 16, 20])
     return dict(
         explanation='Structural necessary conditions of "a decoder never hands back a wrong source symbol", over all paths of the '
         'compiled library: control-block layouts agree with the views the generic decoders use (R-LAYOUT), every decode-side '
@@ -87,9 +91,16 @@ def c02(ctx):
 def c04(ctx):
     for prog in programs(ctx):
         D.r_dup(ctx, prog, [3])
+        D.r_count(ctx, prog, [3])
         D.r_complete(ctx, prog, [3])
+        D.r_it_step3(ctx, prog)
         I.r_layout(ctx, prog, [3])
         D.r_retset(ctx, prog, [3])
+        CB.r_cb(ctx, prog, [3])
+        K.r_nullfeed(ctx, prog)
+        K.r_flag_truth(ctx, prog)
+        K.r_extra_mark(ctx, prog)
+        K.r_role_form(ctx, prog)
     return dict(
         explanation='Only the mechanisms C04 names that are visible in the shape of the code: duplicate suppression dominates every '
         'state update of the iterative decoder (R-DUP), decoding is reported complete exactly when the scan over the k source slots '
@@ -252,6 +263,8 @@ def c17(ctx):
         O.r_own_field(ctx, prog, [], helpers=True)
         O.r_freelist(ctx, prog)
         MX.r_dlink(ctx, prog)
+        MX.r_rowcol_symmetry(ctx, prog)
+        MX.r_blockchain(ctx, prog)
         MX.r_idx_guard(ctx, prog, SPARSE_UNITS, floor=4)
         O.r_uaf(ctx, prog, SPARSE_UNITS, min_sites=5)
     return dict(
@@ -273,6 +286,10 @@ def c18(ctx):
         MX.r_idx_guard(ctx, prog, DENSE_UNITS, floor=4)
         O.r_own_field(ctx, prog, [], helpers=True)
         MX.r_pairswap(ctx, prog)
+        MX.r_scratch_reset(ctx, prog)
+        MX.r_dense_rowfill(ctx, prog)
+        KN.r_kernel_shape(ctx, prog)
+        KN.r_kea(ctx, prog, list(range(0, 2 * KN.P + 9)), [0, 1, 2, 3, 4, 5, 7, 8, 9, 12, 13, 16, 20])
     return dict(
         explanation='R-WORDGEOM: word/bit addressing constants of get/set/flip and of the allocator are mutually consistent with the '
         'word type. R-HW8: the byte popcount table is exact (exhaustive). R-BITLOOP: the bit-serial popcount visits every bit. '
@@ -315,6 +332,7 @@ def c12(ctx):
     for prog in programs(ctx):
         K.r_globals(ctx, prog)
         K.r_verbosity(ctx, prog)
+        P.r_seedrange(ctx, prog)
         P.r_srand_dom(ctx, prog)
         P.r_prng_effect(ctx, prog)
         PA.r_param(ctx, prog, codecs=(3,), only=['seed'])
@@ -349,3 +367,30 @@ def c15(ctx):
         'source column contributes N1 (even) ones and every parity column but the last two, so the last repair symbol equals zero.',
         decides=['all of C15 given the one-line lemma'],
         not_decided=[])
+
+
+from . import rules_kernels as KN
+
+
+@prop('C13')
+def c13(ctx):
+    runs = 0
+    for prog in programs(ctx):
+        KN.r_kernel_shape(ctx, prog)
+        if ctx.tier == 'thorough':
+            sizes, counts = list(range(0, 8 * KN.P + 1)), list(range(0, 25))
+        else:
+            sizes, counts = list(range(0, 4 * KN.P + 1)), list(range(0, 21))
+        runs += KN.r_kea(ctx, prog, sizes, counts)
+        T.r_tables(ctx, prog)
+    return dict(
+        explanation='Kernel extent analysis: an abstract interpreter over the IR of the seven kernels (exact integers for size-derived '
+        'scalars, (region, offset) pointers, per-nibble XOR-sets of provenance atoms for data) computes, per size class and operand '
+        'count, the exact set of bytes loaded and stored per buffer and the provenance formula of every stored byte, and compares them '
+        'with the byte-wise definition. R-KERNEL-SHAPE shows syntactically that every extent expression is quasi-affine in the size '
+        'with period dividing 16 and that no address or data byte influences control flow, so the finite range (sizes 0..64, operand '
+        'counts 0..20; 0..128 and 0..24 in the thorough tier) covers all sizes, counts and alignments. Table contents are covered by R-TABLES.',
+        decides=['exact store extent [0,size) per destination', 'no load outside [0,size) / outside the operand table', 'sources never '
+                 'written', 'every stored byte equals the byte-wise definition', 'alignment independence (no address enters control flow)'],
+        not_decided=['unaligned 64-bit accesses are a platform matter'],
+        extra={'abstract_runs': runs})
